@@ -17,9 +17,15 @@ type Cache struct {
 
 // clientEntries holds entries of client details sent to the service.
 type clientEntries struct {
-	replayMap map[time.Time]replayCacheEntry
+	replayMap map[replayKey]replayCacheEntry
 	seqNumber int64
 	subKey    types.EncryptionKey
+}
+
+// replayKey identifies an authenticator of a client: its client time and the service it was presented to.
+type replayKey struct {
+	cTime time.Time
+	sName string
 }
 
 // Cache entry tracking client time values of tickets sent to the service.
@@ -64,10 +70,10 @@ func (c *Cache) addEntry(sname types.PrincipalName, a types.Authenticator) {
 	ce, ok := c.entries[a.CName.PrincipalNameString()]
 	if !ok {
 		ce = clientEntries{
-			replayMap: make(map[time.Time]replayCacheEntry),
+			replayMap: make(map[replayKey]replayCacheEntry),
 		}
 	}
-	ce.replayMap[ct] = replayCacheEntry{
+	ce.replayMap[replayKey{cTime: ct, sName: sname.PrincipalNameString()}] = replayCacheEntry{
 		presentedTime: time.Now().UTC(),
 		sName:         sname,
 		cTime:         ct,
@@ -100,7 +106,7 @@ func (c *Cache) IsReplay(sname types.PrincipalName, a types.Authenticator) bool 
 	c.mux.Lock()
 	defer c.mux.Unlock()
 	if ce, ok := c.entries[a.CName.PrincipalNameString()]; ok {
-		if e, ok := ce.replayMap[ct]; ok && e.sName.Equal(sname) {
+		if _, ok := ce.replayMap[replayKey{cTime: ct, sName: sname.PrincipalNameString()}]; ok {
 			return true
 		}
 	}
